@@ -163,6 +163,23 @@ def install(ctx, repo, probes):
         prob = None
         if dec is None:
             prob = "text does not have the layout of the format"
+        elif spec["units"] < 2:
+            # the format leaves out the minutes (or the whole time of day):
+            # the date - and the hour - are those of the point read in the
+            # format's zone
+            date, sod, off = dec
+            local = inst + spec["off_min"] * 60
+            want = tuple(R.rd_to_date(mode, spec["rep"],
+                                      int(local // 86400)))
+            if off != spec["off_min"]:
+                prob = "zone spelled %r, format says %r" % (off,
+                                                            spec["off_min"])
+            elif tuple(date) != want:
+                prob = "date %r, in the format's zone it is %r" % (date,
+                                                                  want)
+            elif sod is not None and sod != int(local % 86400) // 3600 * 3600:
+                prob = "hour %r, in the format's zone it is %r" % (
+                    sod / 3600, int(local % 86400) // 3600)
         else:
             date, sod, off = dec
             if off != spec["off_min"]:
@@ -407,6 +424,20 @@ def workload(ctx, repo):
             ctx.case = case
             ctx.ev("cases.small-offset-pairs")
             run_case(ctx, repo, case)
+            if jj % 4 == 0:
+                # the same with no minutes / no time of day in the format
+                units = (jj // 4) % 2
+                fmt2 = DATE_FMT[(rep, ext)] + "T" + "hh" * units + \
+                    isotext.enc_zone(dst, zform, ext)
+                if dst[0] >= 0 and dst[1] >= 0:
+                    case = {"op": "dump", "mode": "gregorian", "p": kw,
+                            "fmt": fmt2,
+                            "spec": {"rep": rep, "ext": ext, "nexp": 0,
+                                     "units": units, "zform": zform,
+                                     "off_min": dst[0] * 60 + dst[1]}}
+                    ctx.case = case
+                    ctx.ev("cases.reduced-time-dumps")
+                    run_case(ctx, repo, case)
             case = {"op": "tz", "mode": "gregorian", "p": kw,
                     "dest": list(dst)}
             ctx.case = case
